@@ -45,7 +45,7 @@ MUTANTS = [
     ('sort flag of Clean no longer gated by CI', 'snaps/clean.go', '\t\topt.Sort && !isCI,', '\t\topt.Sort,',
      lambda f, rc: rc == 0 and f['modes']['cleanSnapsSort'].replace(' ', '') == 'sortOpt'),
     ('mode gate written with a switch (outside the translated subset)', 'snaps/utils.go', '\tif u != nil {\n\t\treturn *u\n\t}\n\n\treturn updateVAR == "true"', '\tswitch {\n\tcase u != nil:\n\t\treturn *u\n\t}\n\n\treturn updateVAR == "true"',
-     lambda f, rc: rc != 0),
+     lambda f, rc: rc != 0 or 'modes' in (f.get('failed') or {})),
     ('handleError not followed by return', 'snaps/matchYAML.go', '\t\terr := addNewSnapshot(testID, snapshot, snapPath)\n\t\tif err != nil {\n\t\t\thandleError(t, err)\n\t\t\treturn\n\t\t}', '\t\terr := addNewSnapshot(testID, snapshot, snapPath)\n\t\tif err != nil {\n\t\t\thandleError(t, err)\n\t\t}',
      lambda f, rc: rc == 0 and f['bools']['handleErrorReturns'] is False),
     ('constructFilename trims the extension of a user Filename too', 'snaps/snapshot.go',
